@@ -63,6 +63,9 @@ def subdivide_segments(v, num_subdivisions=5):
     dists = np.sqrt(np.sum(sqdis, axis=1))
 
     unitds = diffs / dists[:, np.newaxis]
+    # A zero-length segment has no direction. Its subdivisions all coincide
+    # with its start point.
+    unitds[dists == 0] = 0.0
     widths = dists / num_subdivisions
 
     domain = widths[:, np.newaxis] * np.arange(0, num_subdivisions)
